@@ -271,8 +271,8 @@ func c17RuntimeRun(steps []c17Step) (string, error) {
 					return "runtime-typed-mask-roundtrip-" + encName, fmt.Errorf("step %d: mask value 13 of 0x%06X as a value of its Go type is written as %s and reads back as %d, %v", i, maskTag, out, back, err)
 				}
 				// bits that have no name (the reserved second bit, bits beyond the registered ones) are numbers like any
-				// other: whatever is written for them reads back as the same number
-				for _, v := range []vendorMaskA{2, 7, 0x10, 0x1F, 0x40000002} {
+				// other: whatever is written for them reads back as the same number; so is "no flag at all"
+				for _, v := range []vendorMaskA{0, 2, 7, 0x10, 0x1F, 0x40000002} {
 					var o2 []byte
 					var b2 vendorMaskA
 					err := safely(func() error { o2 = codec.m(v); return codec.u(o2, &b2) })
